@@ -1094,28 +1094,34 @@ def trlog(T, check=True, twist=False):
                 return np.zeros((3,))
             else:
                 return np.zeros((3, 3))
-        elif abs(np.trace(R) + 1) < 100 * _eps:
-            # check for trace = -1
-            #   rotation by +/- pi, +/- 3pi etc.
-            diagonal = R.diagonal()
-            k = diagonal.argmax()
-            mx = diagonal[k]
-            I = np.eye(3)
-            col = R[:, k] + I[:, k]
-            w = col / np.sqrt(2 * (1 + mx))
-            theta = math.pi
-            if twist:
-                return w * theta
-            else:
-                return base.skew(w * theta)
         else:
-            # general case
-            theta = math.acos((np.trace(R) - 1) / 2)
-            skw = (R - R.T) / 2 / math.sin(theta)
-            if twist:
-                return base.vex(skw * theta)
+            # general case: the skew-symmetric part of R is sin(theta) * [axis]
+            # and its trace is 1 + 2 cos(theta); atan2 of the two is accurate
+            # for all angles, unlike acos of the trace
+            sw = base.vex(R)
+            st = np.linalg.norm(sw)
+            ct = (np.trace(R) - 1) / 2
+            theta = math.atan2(st, ct)
+            if ct > 0 or st > 1e-3:
+                # away from a half turn: axis from the skew-symmetric part
+                if theta < 1e-3:
+                    # series for theta / sin(theta)
+                    w = sw * (1 + theta ** 2 / 6 + 7 * theta ** 4 / 360)
+                else:
+                    w = sw * (theta / st)
             else:
-                return skw * theta
+                # near a half turn the skew-symmetric part vanishes: take the
+                # axis from the symmetric part, cos(theta) I + (1 - cos(theta)) k k'
+                B = ((R + R.T) / 2 - ct * np.eye(3)) / (1 - ct)
+                k = B.diagonal().argmax()
+                w = B[:, k] / math.sqrt(B[k, k])
+                if np.dot(w, sw) < 0:
+                    w = -w
+                w = w / np.linalg.norm(w) * theta
+            if twist:
+                return w
+            else:
+                return base.skew(w)
     else:
         raise ValueError("Expect SO(3) or SE(3) matrix")
 
